@@ -460,7 +460,7 @@ pub fn gen_resize(rng: &mut Rng, cfg: &ResizeCfg, classes: &mut Vec<String>, pt_
     } else {
         None
     };
-    ResizeOp { pt, src, dst, alg, crop, use_alpha: rng.chance(2, 3), dst_pt }
+    ResizeOp { pt, src, dst, alg, crop, use_alpha: rng.chance(2, 3), dst_pt, shared_src: false }
 }
 
 pub fn gen_alpha(rng: &mut Rng, max_dim: u32, allow_sim: bool, classes: &mut Vec<String>, alpha_only: bool) -> AlphaOp {
@@ -729,6 +729,46 @@ pub fn generate(k: &Knobs, seed: u64) -> Scenario {
                     ops.push(Op { kind, pool: pick_pool(&mut rng, false, true), backend: backend(&mut rng, k) });
                 }
                 scn.clients.push(Client { ops });
+            }
+            // F7: in half of the multi-client runs the first resize of every client reads
+            // ONE shared source image (another destination shape, crop and algorithm each)
+            if n_clients > 1 && rng.chance(1, 2) {
+                let first: Option<ResizeOp> = scn.clients[0].ops.iter().find_map(|o| match &o.kind {
+                    OpKind::Resize(r) if r.src.w > 0 && r.src.h > 0 && !r.src.kind.is_harness() => Some(r.clone()),
+                    _ => None,
+                });
+                if let Some(mut r0) = first {
+                    // a shared image is handed out through read-only containers
+                    if matches!(r0.src.kind, Kind::ImgAsSrc) {
+                        r0.src.kind = Kind::Slice;
+                    }
+                    if matches!(r0.src.kind, Kind::DynImgAsSrc) {
+                        r0.src.kind = Kind::DynSlice;
+                    }
+                    let mut fired = false;
+                    for (ci, cl) in scn.clients.iter_mut().enumerate() {
+                        if let Some(op) = cl.ops.iter_mut().find(|o| matches!(o.kind, OpKind::Resize(_))) {
+                            if let OpKind::Resize(r) = &mut op.kind {
+                                if ci > 0 {
+                                    let (dw, dh, _) = pick_dst_shape(&mut rng, 200, false);
+                                    let mut d = r0.dst.clone();
+                                    d.w = dw;
+                                    d.h = dh;
+                                    d.content_seed = rng.next_u64() >> 16;
+                                    let (crop, _) = pick_crop(&mut rng, r0.src.w, r0.src.h, dw, dh, 3, false);
+                                    *r = ResizeOp { dst: d, crop, alg: pick_alg(&mut rng, 0), use_alpha: rng.chance(2, 3), ..r0.clone() };
+                                } else {
+                                    r.src.kind = r0.src.kind;
+                                }
+                                r.shared_src = true;
+                                fired = true;
+                            }
+                        }
+                    }
+                    if fired {
+                        classes.push("fault:shared-source".into());
+                    }
+                }
             }
         }
         "C05" => {
